@@ -22,6 +22,9 @@ Fixpoint pk_ready (xl : list pp_xc) (n : nat) : nat :=
          match xl' with x' :: _ => (n + (length (sg_line0 (xq x')) + 2) <=? length (pp_ex_qwire xl'))%nat | [] => false end
       then S (pk_ready xl' n) else 0
   end.
+(* the requests whose last byte has been offered *)
+Fixpoint pk_offered (xl : list pp_xc) (n : nat) : nat :=
+  match xl with [] => 0 | x :: xl' => if (n <=? length (pp_ex_qwire xl'))%nat then S (pk_offered xl' n) else 0 end.
 Lemma pk_ready_le xk xf n : pk_ready xf n = 0%nat -> (pk_ready (xk ++ xf) n <= length xk)%nat.
 Proof.
   intros H. induction xk as [|x xk IH]; [cbn [app length]; lia|]. cbn [app length pk_ready].
@@ -63,6 +66,8 @@ Proof.
   - exfalso. destruct q; [contradiction|discriminate].
 Qed.
 
+Lemma pk_live_other s : sg_live s -> (s =? c_HTP_STREAM_DATA_OTHER)%Z = false.
+Proof. intros [H|H]; rewrite H; reflexivity. Qed.
 (* ================= facts about the response side between two calls ================= *)
 Lemma pk_betw_mid g w ps s r ls body t0 tailw c rw : qp_betw g (w := w) ps s r ls body t0 tailw c rw -> exists p hdr st rh t, pj_midw w c p hdr st rh t.
 Proof. intros [p q Hm _ _ _|p hdr t Hm _|k _ Hm _ _]; do 5 eexists; exact Hm. Qed.
@@ -143,7 +148,7 @@ Proof.
   clear E. induction H as [|e x ek xk (k & fl & Ee) H IH]; [constructor|].
   destruct (Hall x (or_introl eq_refl)) as [O1 O2].
   constructor; [|apply IH; intros y Hy; apply Hall; right; exact Hy].
-  rewrite Ee. split; [apply pp_ex_of_ok; assumption|apply pk_noexp_get; assumption].
+  rewrite Ee. split; [apply qp_ex_ok_of; apply pp_ex_of_ok; assumption|apply pk_noexp_get; assumption].
 Qed.
 
 Lemma pk_f1_transfer ek xk xf d rwr : pk_known ek xk -> pp_f1_ex (xk ++ xf) d (rwr ++ pp_ex_swire xf) = true -> qp_f1 ek d rwr.
@@ -195,6 +200,8 @@ Proof.
   - exists []. split; [rewrite app_nil_r; exact E1|left; exact E2].
   - exists [Some t]. split; [exact E1|right; exact E2].
 Qed.
+Lemma pk_q_live done rsd rs c rw : pc_qinv g done rsd rs c rw -> (c_in_status c =? c_HTP_STREAM_DATA_OTHER)%Z = false.
+Proof. intros (fl & B). apply pk_live_other. exact (pv_between_live g _ _ _ _ _ B). Qed.
 
 (* ---- the ready count ---- *)
 Lemma pk_inv_ready a c qrw srw : pk_inv a c qrw srw -> (pk_ready xl (length qrw) <= a)%nat.
@@ -235,10 +242,8 @@ Proof.
   assert (Ht : forall X, c_txs c = X ++ junk -> c_txs c' = X ++ qp_pend newes ++ junk').
   { intros X EX. rewrite Etx in EX. apply app_inv_tail in EX. subst X. rewrite Etx', Epend, <- app_assoc. reflexivity. }
   assert (Lek : length ek = length xk) by (exact (pk_F2_len _ _ _ Hk)).
-  assert (Hfree : forall j, (j < length (esd ++ es))%nat -> c_in_tx c' <> Some j).
-  { intros j Hj. rewrite <- Eek, Lek in Hj. destruct Hintx' as [E|E]; rewrite E; [discriminate|].
-    rewrite app_length, map_length. intro X. inversion X. lia. }
-  pose proof (pk_rbetween_re g junk junk' (pj_qin c) c c' newes So Ht esd es srr Hfree Hs) as Hs'.
+  pose proof (pk_q_live _ _ _ _ _ Hq'') as Hlive2.
+  pose proof (pk_rbetween_re g junk junk' (pj_qin c) c c' newes So Ht Hlive2 esd es srr Hs) as Hs'.
   exists (length (xk ++ xnew)). split; [rewrite app_length; lia|].
   apply (PK_inv _ _ _ _ (xk ++ xnew) xf' (ek ++ newes) esd (es ++ newes) (done ++ map Some fins) junk' (srr ++ qp_wires newes)).
   - rewrite Exl, Exf, app_assoc. reflexivity.
@@ -272,8 +277,7 @@ Proof.
   rewrite Esrw in Ey. destruct (pk_app_cut _ _ _ _ Ey Hlen) as (srr' & Er & Ew).
   assert (Lek : length ek = length xk) by (exact (pk_F2_len _ _ _ Hk)).
   destruct (pk_q_txs _ _ _ _ _ Hq) as (junk0 & Etx0 & Hintx).
-  assert (Hfree : forall j, (j < length ek)%nat -> pj_intx (pj_qin c) <> Some j).
-  { intros j Hj. change (pj_intx (pj_qin c)) with (c_in_tx c). destruct Hintx as [E|E]; rewrite E; [discriminate|]. intro X. inversion X. lia. }
+  assert (Hfree : (pj_instat (pj_qin c) =? c_HTP_STREAM_DATA_OTHER)%Z = false) by (exact (pk_q_live _ _ _ _ _ Hq)).
   assert (Hf1' : qp_f1 ek y srr') by (apply (pk_f1_transfer ek xk xf y srr' Hk); rewrite <- Exl, <- Ew; exact Hf1).
   destruct (qp_pstep cb g Hcb Had ek (pk_known_ok xk xf ek Exl Hk) junk (pj_qin c) Hfree esd es c srr y srr' Eek Hs Hne Er Hf1')
     as (c1 & rc & E & esd' & es' & Eek' & Hs1).
